@@ -814,9 +814,14 @@ class WcSplit(Generic[AnyStr]):
         """Handle character group."""
 
         c = next(i)
-        if c == '!':
+        if c in ('!', '^'):
             c = next(i)
-        if c in ('^', '-', '['):
+        if c == '[':
+            # A leading POSIX class or a literal `[`
+            i.match(RE_POSIX)
+            c = next(i)
+        elif c in ('-', ']'):
+            # A leading `-` or `]` is a literal member, as it is for the parser
             c = next(i)
 
         try:
@@ -824,6 +829,9 @@ class WcSplit(Generic[AnyStr]):
                 if c == '\\':
                     # Handle escapes
                     self._references(i, True)
+                elif c == '[':
+                    # Skip a POSIX class as a whole so that its `]` does not end the sequence
+                    i.match(RE_POSIX)
                 elif c == '/':
                     if self.pathname:
                         raise StopIteration
@@ -870,11 +878,11 @@ class WcSplit(Generic[AnyStr]):
                     except StopIteration:
                         pass
                 elif c == '[':
-                    index = i.index
+                    seq_index = i.index
                     try:
                         self._sequence(i)
                     except StopIteration:
-                        i.rewind(i.index - index)
+                        i.rewind(i.index - seq_index)
 
         except StopIteration:
             success = False
